@@ -98,13 +98,21 @@ func c04inputs(m *clipModel, c *Ctx) []c04geom {
 			}
 			return m.sliceOf(gcT, vals), verts
 		}
+		mkBox := func() (oval, []oBoxPt) {
+			a, b := m.fresh(), m.fresh()
+			lo, hi := oBoxPt{min64(a.x, b.x), min64(a.y, b.y)}, oBoxPt{max64(a.x, b.x), max64(a.y, b.y)}
+			bs := m.it.bounds(m.bt, m.ptT, lo.x, lo.y, hi.x, hi.y)
+			return m.it.ifaceOf(oPtr{bs}), []oBoxPt{{lo.x, lo.y}, {hi.x, lo.y}, {hi.x, hi.y}, {lo.x, hi.y}}
+		}
 		e0 := func() (oval, []oBoxPt) { return mkLine(0) }
 		l2 := func() (oval, []oBoxPt) { return mkLine(2) }
 		pg := func() (oval, []oBoxPt) { return mkPoly(0, 2) }
 		pe := func() (oval, []oBoxPt) { return mkPoly() }
 		nestedEmpty := func() (oval, []oBoxPt) { v, vs := coll(); return m.it.ifaceOf(v), vs }
 		nested := func() (oval, []oBoxPt) { v, vs := coll(e0, mkPoint, pe); return m.it.ifaceOf(v), vs }
-		for i, ms := range [][]func() (oval, []oBoxPt){{}, {mkPoint}, {e0}, {e0, mkPoint}, {mkPoint, e0, e0, l2}, {pe, e0, pg, nestedEmpty, mkPoint, e0}, {nested, e0, nested, l2}} {
+		for i, ms := range [][]func() (oval, []oBoxPt){{}, {mkPoint}, {e0}, {e0, mkPoint}, {mkPoint, e0, e0, l2}, {pe, e0, pg, nestedEmpty, mkPoint, e0}, {nested, e0, nested, l2},
+			// a box as a member: first (what a fold seeded with the first member's own box would write into), last, nested
+			{mkBox, mkPoint, l2}, {mkPoint, mkBox}, {func() (oval, []oBoxPt) { v, vs := coll(mkBox, mkPoint); return m.it.ifaceOf(v), vs }, l2}} {
 			v, vs := coll(ms...)
 			add(fmt.Sprintf("GeometryCollection#%d", i), "GeometryCollection", v, vs)
 		}
@@ -143,6 +151,7 @@ func c04model(c *Ctx, ruleFold, ruleIter string) {
 				continue
 			}
 			runs++
+			before := showVal(g.val)
 			out, why := m.it.Call(fn, g.val, nil, 0)
 			if why != "" {
 				if len(why) > 6 && why[:6] == "panic:" {
@@ -150,6 +159,10 @@ func c04model(c *Ctx, ruleFold, ruleIter string) {
 				} else {
 					v.unk = fmt.Sprintf("%s.%s(): not interpretable: %s", g.name, meth, why)
 				}
+				continue
+			}
+			if after := showVal(g.val); after != before {
+				v.msg = fmt.Sprintf("%s.%s() changes the geometry it is called on: it was %s and is %s afterwards (a result built in a member's own storage)", g.name, meth, before, after)
 				continue
 			}
 			switch meth {
